@@ -208,9 +208,51 @@ def gen_frag(rng, tier):
     return {'kind': 'frag', 'cfg': cfg, 'calls': calls}
 
 
+def gen_sink_histories(rng, tier, mode):
+    out = []
+    combos = [('h264', 'none', True, False), ('h264', 'none', False, False), ('h264', 'aac', True, False),
+              ('h264', 'aac', False, True), ('vp9', 'opus', True, True), ('h265', 'aac', False, False),
+              ('av1', 'none', True, True), ('h264', 'opus', False, False)]
+    if mode == 'bytes':
+        combos = combos[:4] if tier == 'quick' else combos
+    for vc, ac, fast, meta in combos:
+        cfg = base_cfg(vc, ac, fast=fast)
+        if meta:
+            cfg['meta'] = {'title': list(b'sink test'), 'ct_days': 20000, 'ct_sod': 3600, 'lang': list(b'eng')}
+        calls = []
+        t = 0
+        nv = 3
+        for i in range(nv):
+            d = video_frame(rng, vc, i == 0, rng.randrange(3, 20))
+            if i == 1:
+                calls.append({'op': 'wvd', 'pts': fin(t + 18000), 'dts': fin(t), 'data': d, 'key': False})
+            else:
+                calls.append({'op': 'wv' if i == 0 else 'wvd', 'pts': fin(t if i == 0 else t - 9000), **({} if i == 0 else {'dts': fin(t)}),
+                              'data': d, 'key': i == 0})
+            if ac != 'none':
+                calls.append({'op': 'wa', 'pts': fin(t), 'data': audio_frame(rng, ac, rng.randrange(2, 12))})
+            t += 9000
+        how = rng.choice(['in_place_stats', 'in_place'])
+        calls.append({'op': 'fin', 'how': 'in_place_stats' if mode == 'bytes' else how})
+        # every later API call once (after a failure nothing more may be written)
+        calls.append({'op': 'wv', 'pts': fin(t + 9000), 'data': video_frame(rng, vc, False, 4), 'key': False})
+        if ac != 'none':
+            calls.append({'op': 'wa', 'pts': fin(t + 9000), 'data': audio_frame(rng, ac, 4)})
+        calls.append({'op': 'fin', 'how': 'in_place_stats'})
+        calls.append({'op': 'fin', 'how': 'finish'})
+        out.append({'cfg': cfg, 'calls': calls, 'enum': mode})
+    return out
+
+
 def generate(kind, n, seed, tier):
     rng = random.Random((seed * 1000003) ^ hash(kind) & 0xffff if False else seed * 1000003 + sum(map(ord, kind)))
     out = []
+    if kind in ('sink_calls', 'sink_bytes'):
+        hs = gen_sink_histories(rng, tier, kind.split('_')[1])
+        for h in hs:
+            h['seed'] = seed
+            h['nrand'] = 20 if tier == 'quick' else 200
+        return hs
     for _ in range(n):
         if kind == 'mux':
             out.append(gen_mux(rng, tier))
